@@ -115,7 +115,9 @@ Event ==
      /\ ((ShapeIgnoresAbsent(kind) /\ r.ev.c # "none") => SameOut(r.skip, r.out))                \* deleting absent samples changes nothing
      /\ (StructureOnly \/ SameOut(r.shift, r.out))                                                                \* unchanged by a constant shift of timestamps (shifted back by the recorder)
      /\ (StructureOnly \/ SameOut(r.scale, r.out))                                                                \* scales exactly with a power of two (rescaled back by the recorder)
-     /\ (~StructureOnly /\ kind = "PID" /\ r.ev.c = "some" => SameOut(r.composite, r.out))                         \* the controller assembled from primitive streams agrees after every present sample
+     /\ (~StructureOnly /\ kind = "PID" /\ r.ev.c = "some" =>
+            /\ r.composite.c = r.out.c /\ r.composite.t = r.out.t                                    \* the controller assembled from primitive streams: same category and time,
+            /\ \A j \in 1..Len(r.cnum) : r.cnum[j].err <= r.cnum[j].bound)                             \* and the same textbook value up to rounding (twice the allowance: more operations)
      /\ (~StructureOnly /\ kind \in {"MA", "EWMA"} => SameOut(r.variant, r.out))                                   \* the Quantity variant gives the same numbers
      /\ (~StructureOnly /\ kind \in {"MA", "MAQ"} /\ r.ev.c = "some" =>
             /\ Len(q2) >= 1
